@@ -277,6 +277,21 @@ def teval(t: Term, env: dict):
             raise
         except Exception as e:
             raise Unknown(f"{op}: {e}")
+    if op in ("call:pathlib.Path", "call:Path", "call:pathlib.PurePath") and a:
+        import pathlib as _pl
+        pos = [x for x in a if not (isinstance(x, Const) and isinstance(x.v, tuple) and x.v[:1] == ("site",))]
+        try:
+            return _pl.PurePosixPath(*[ev(x) for x in pos])
+        except Unknown:
+            raise
+        except Exception as e:
+            raise Unknown(f"Path: {e}")
+    if op in ("attr:suffix", "attr:name", "attr:stem", "attr:parent") and len(a) == 1:
+        v_ = ev(a[0])
+        import pathlib as _pl
+        if not isinstance(v_, _pl.PurePath):
+            raise Unknown(f"{op} of a non-path")
+        return getattr(v_, op[5:])
     if op == "fmt" and len(a) in (2, 3):
         try:
             v_ = ev(a[0])
